@@ -99,7 +99,10 @@ theorem C17_sort_unstable_by_col (v : VW) (buf : List α) (h : v.Inv buf.length)
     (c < v.numCols → a.sortUnstableByCol col swapRows buf lim p c = .ok (gather buf (v.mapCells (sortRowsG p)))) ∧
     (¬ c < v.numCols → a.sortUnstableByCol col swapRows buf lim p c = .error .panic) := by
   obtain ⟨h1, _, _, h4⟩ := C17_sort_col_with v buf h a ha col hcol swapRows hsw lim (sideGiven p) c
-  exact ⟨fun hc => h4 hc hlim p rfl hp, fun hc => h1 hc⟩
+  refine ⟨fun hc => h4 hc hlim p ?_ hp, fun hc => h1 hc⟩
+  have hp' := hp
+  rw [← C17_key_col_length v buf h c hc] at hp'
+  simp [sideGiven, hp']
 
 /-- the key and natural-order variants are the comparator variants with the derived comparator (src/sort.rs:168-170, 216-233) -/
 theorem C17_variants_delegate {κ : Type} (a : Acc) (col : Nat → Res Col) (swapRows : List α → Nat → Nat → Res (List α))
